@@ -11,8 +11,8 @@ NOT_APPLICABLE = {}
 
 PROPS = {
     "C16": dict(
-        level_text="Proof: every relational built-in (atom_length, atom_concat, sub_atom, atom_chars, atom_codes, char_code, between, succ, functor, arg, =.., nth0, nth1, length, append, member, select) is modelled in Lean as a function from the resolved argument terms to the ISO error or the ordered list of answer tuples, and specified independently as a relation on tuples (Spec/Relations). Kernel-checked for ALL argument terms: the answers of the eight text/integer predicates are exactly the tuples of the relation that are instances of the call, each once (Exact: sound, complete, nodup), with the ISO error table (ErrorsOk) and monotonicity under instantiation (C16_monotone); functor/3 in all modes, arg/3, =../2, nth0/nth1 on arbitrary non-ground data (most-general-unifier law of the model's unifier proved), length/2 for proper lists, generating a list of given length, and the infinite enumeration per prefix; soundness of member/2, select/3 (SLD over the clauses regenerated from bootstrap.pl) and append/3 for all arguments; the UTF-8 byte-level loops of the Go code equal the code-point splits (text_is_chars). The model is tied to the Go code by the c16.rel stream (small-scope exhaustive + random, answers compared as ordered lists) with the executable specification as brute-force oracle.",
-        level_note="Trusted: Lean kernel; the hand-written model (checked by differential runs, not proved); harness canonicalisation; Lean core's UTF-8 library as the definition of UTF-8. Open (stated, not proved): completeness/exactly-once of member/2, select/3 and of append/3 splitting a list (their soundness is proved; the stream's oracle checks completeness by brute force). Unification with non-ground data uses a Robinson unifier with fuel; theorems about it assume the fuel sufficed (UnifyDefined). Cyclic answers (the engine has no occurs check) are outside the model.",
+        level_text="Proof: every relational built-in (atom_length, atom_concat, sub_atom, atom_chars, atom_codes, char_code, between, succ, functor, arg, =.., nth0, nth1, length, append, member, select) is modelled in Lean as a function from the resolved argument terms to the ISO error or the ordered list of answer tuples, and specified independently as a relation on tuples (Spec/Relations). Kernel-checked for ALL argument terms: the answers of the eight text/integer predicates are exactly the tuples of the relation that are instances of the call, each once (Exact: sound, complete, nodup), with the ISO error table (ErrorsOk) and monotonicity under instantiation (C16_monotone); functor/3 in all modes, arg/3, =../2, nth0/nth1 on arbitrary non-ground data (most-general-unifier law of the model's unifier proved), length/2 for proper lists, generating a list of given length, and the infinite enumeration per prefix; soundness AND completeness of member/2, select/3 (SLD resolution over the clauses regenerated from bootstrap.pl: validity of the clauses for the relations + a lifting lemma) and of append/3 (both code paths) for all arguments, partial lists and non-ground elements included; the UTF-8 byte-level loops of the Go code equal the code-point splits (text_is_chars). The model is tied to the Go code by the c16.rel stream (small-scope exhaustive + random, answers compared as ordered lists) with the executable specification as brute-force oracle.",
+        level_note="Trusted: Lean kernel; the hand-written model (checked by differential runs, not proved); harness canonicalisation; Lean core's UTF-8 library as the definition of UTF-8. Open (stated, not proved): that member/2, select/3 and append/3 splitting a list answer no position twice (their soundness and completeness are proved; the stream's oracle compares the answer multiset with the positions by brute force). Unification with non-ground data uses a Robinson unifier with fuel whose soundness and most-general-unifier property are proved; theorems about it assume the fuel sufficed (UnifyDefined/SldDefined) — an executable side condition that the driver evaluates on every case (never violated). Cyclic answers (the engine has no occurs check) are outside the model.",
         technique="Lean 4 proofs about an executable model of each builtin (candidate enumeration + verified one-way matcher / most general unifier, SLD soundness over regenerated clauses) against independent relational specifications + small-scope exhaustive model/implementation correspondence with a brute-force oracle",
         lean_module="PrologVerif.Properties.C16",
         ns="PrologVerif.C16",
@@ -28,7 +28,7 @@ PROPS = {
                   "regenerated": ["bootstrap.pl member/2, select/3"], "observed_only": ["Env.Unify on non-ground data", "makeSlice memory check", "atom table"]},
         assumptions=["argument terms are resolved and acyclic; integer constants lie in the 64-bit range",
                      "calls on which the missing occurs check of the engine would build a cyclic term are excluded (the generators are NSTO by construction)",
-                     "theorems about unification with non-ground data: the Robinson unifier of the model finished within its fuel (UnifyDefined; trivially true when one side is ground)"],
+                     "theorems about unification with non-ground data: the Robinson unifier of the model finished within its fuel (UnifyDefined/SldDefined; trivially true when one side is ground; checked by the driver on every case of the stream)"],
     ),
     "C18": dict(
         level_text="Proof: the operator-table state machine (Op/validateOp/CurrentOp and the operators methods) is modelled in Lean; for ALL histories of op/3 calls with arbitrary argument terms the ISO invariant (C18_inv), atomicity of failed updates (C18_atomic), the exact effect of successful updates (C18_update_exact: latest wins, 0 removes, other classes kept) and exactness of current_op/3 (C18_current_op_exact) are kernel-checked theorems, the default table being regenerated from bootstrap.pl. The model is tied to the Go code by the c18.hist correspondence stream (impl vs model, plus an independent executable ISO specification as oracle, plus reader/writer probes).",
